@@ -329,6 +329,14 @@ var oddMethods = []string{"", "Transfer", "deploy", "terminate", "nosuch", "tran
 
 // ---- pay amounts ----
 
+// payNeeded is payAmount for methods that insist on a payment: the hinted amounts 6 times in 7.
+func (p *prog) payNeeded(label string, sender *sim.Actor, hints ...*big.Int) *big.Int {
+	if rapid.IntRange(0, 6).Draw(p.t, label+"Hinted") < 6 {
+		return new(big.Int).Set(hints[p.draw(label+"Hint", len(hints))])
+	}
+	return p.payAmount(label, sender, hints...)
+}
+
 func (p *prog) payAmount(label string, sender *sim.Actor, hints ...*big.Int) *big.Int {
 	k := rapid.IntRange(0, 13).Draw(p.t, label+"Class")
 	if k < 7 {
@@ -434,10 +442,10 @@ func (p *prog) deployEmbedded(e *embType) *opSpec {
 		args = [][]byte{
 			p.anyBlob("ovFact"),
 			p.anyU64("ovStart", start...),
-			p.anyU64("ovDuration", 3, 4, 5, 8),
+			p.anyU64("ovDuration", 4, 6, 8, 12),
 			p.anyU64("ovPublic", 1, 100, 200),
 			p.anyByte("ovThreshold", 51, 66, 100),
-			p.anyByte("ovQuorum", 1, 1, 20, 20, 50, 100),
+			p.anyByte("ovQuorum", 1, 1, 1, 20, 20, 20, 50, 100),
 			p.anyU64("ovCommittee", n, n, n, 1, 2, 100),
 			p.anyBig("ovMinPay", big.NewInt(0), sim.Dna(1), sim.Dna(50)),
 			p.anyByte("ovOwnerFee", 0, 0, 10, 100),
@@ -451,6 +459,11 @@ func (p *prog) deployEmbedded(e *embType) *opSpec {
 		var ovArg []byte
 		if ovs := p.findKind("OracleVoting"); len(ovs) > 0 && rapid.IntRange(0, 9).Draw(p.t, "lockUsesVoting") < 8 {
 			c.ov = ovs[p.draw("lockVoting", len(ovs))]
+			for _, ov := range ovs {
+				if p.votingFinished(ov) {
+					c.ov = ov
+				}
+			}
 			ovArg = c.ov.addr.Bytes()
 		} else {
 			ovArg = p.anyAddr("lockVotingAddr")
@@ -531,6 +544,21 @@ func (p *prog) deploy() *opSpec {
 		embNames = nil
 	default:
 		embNames = []string{"TimeLock", "OracleVoting", "OracleLock", "RefundableOracleLock", "Multisig"}
+	}
+	if p.focus == "voting" || p.focus == "mix" {
+		// a finished voting nobody watches yet: deploy a lock for it
+		for _, ov := range p.findKind("OracleVoting") {
+			watched := false
+			for _, c := range p.contracts {
+				watched = watched || c.ov == ov
+			}
+			if !watched && p.votingFinished(ov) && p.chance("lockForFinishedVoting", 80) {
+				if p.chance("lockKind", 60) {
+					return p.deployEmbedded(embByName("OracleLock"))
+				}
+				return p.deployEmbedded(embByName("RefundableOracleLock"))
+			}
+		}
 	}
 	if wasmOK && (len(embNames) == 0 || rapid.IntRange(0, 9).Draw(p.t, "deployWasm") < 4) {
 		// inc before sum so that sum can point at it
@@ -613,25 +641,51 @@ func (p *prog) smartMultisig(c *contract) *opSpec {
 			voters = append(voters, a)
 		}
 	}
-	switch rapid.IntRange(0, 9).Draw(p.t, "msStep") {
-	case 0, 1, 2, 3:
-		// vote: prefer agreeing with an existing vote
-		var dest common.Address
-		var amount []byte
-		agreed := false
-		for _, a := range p.senders {
-			if v, ok := c.sent[a.Idx]; ok && p.chance("msAgree", 75) {
-				dest, amount, agreed = v.dest, v.amount, true
-				break
+	// the proposal (dest, amount) with most recorded votes
+	var best msVote
+	bestN, haveBest := 0, false
+	for _, a := range p.senders {
+		v, ok := c.sent[a.Idx]
+		if !ok {
+			continue
+		}
+		n := 0
+		for _, b := range p.senders {
+			if w, ok := c.sent[b.Idx]; ok && w.dest == v.dest && string(w.amount) == string(v.amount) {
+				n++
 			}
 		}
-		if !agreed {
+		if n > bestN {
+			best, bestN, haveBest = v, n, true
+		}
+	}
+	minVotes := int(p.cbyte(c, "minVotes"))
+	step := rapid.IntRange(0, 9).Draw(p.t, "msStep")
+	if st == 2 && haveBest && bestN >= minVotes && step < 8 {
+		step = 5 // enough votes: push
+	} else if st == 2 && step < 8 {
+		step = 0 // collect votes
+	}
+	switch step {
+	case 0, 1, 2, 3:
+		// vote: prefer agreeing with the leading proposal
+		var dest common.Address
+		var amount []byte
+		if haveBest && p.chance("msAgree", 80) {
+			dest, amount = best.dest, best.amount
+		} else {
 			dest = p.actorAddr("msDest")
 			amount = p.anyBig("msAmount", p.transferAmounts(c)...)
 		}
 		sender := p.anySender("msSendSender")
-		if len(voters) > 0 && p.chance("msVoterSends", 85) {
-			sender = voters[p.draw("msSendVoter", len(voters))]
+		var undecided []*sim.Actor
+		for _, a := range voters {
+			if w, ok := c.sent[a.Idx]; !ok || w.dest != dest || string(w.amount) != string(amount) {
+				undecided = append(undecided, a)
+			}
+		}
+		if len(undecided) > 0 && p.chance("msVoterSends", 85) {
+			sender = undecided[p.draw("msSendVoter", len(undecided))]
 		}
 		args, cls := p.mangle([][]byte{dest.Bytes(), amount}, "msSendArgs")
 		op := p.mkCall(c, sender, "send", p.payAmount("msSendPay", sender), args, cls, true)
@@ -640,24 +694,17 @@ func (p *prog) smartMultisig(c *contract) *opSpec {
 		}
 		return op
 	case 4, 5, 6, 7:
-		var dest common.Address
-		var amount []byte
-		found := false
-		for _, a := range p.senders {
-			if v, ok := c.sent[a.Idx]; ok {
-				dest, amount, found = v.dest, v.amount, true
-				if p.chance("msPushPick", 60) {
-					break
-				}
-			}
-		}
-		if !found || p.chance("msPushOther", 15) {
+		dest, amount := best.dest, best.amount
+		if !haveBest || p.chance("msPushOther", 12) {
 			dest = p.actorAddr("msPushDest")
 			amount = p.anyBig("msPushAmount", p.transferAmounts(c)...)
 		}
 		args, cls := p.mangle([][]byte{dest.Bytes(), amount}, "msPushArgs")
 		op := p.mkCall(c, p.anySender("msPushSender"), "push", p.payAmount("msPushPay", c.owner), args, cls, true)
 		op.onSuccess = func() { c.sent = map[int]msVote{} }
+		if cls == "typed" {
+			op.post = postReceived(dest.Bytes(), amount)
+		}
 		return op
 	default:
 		args, cls := p.mangle([][]byte{p.anyAddr("msTermDest")}, "msTermArgs")
@@ -717,7 +764,7 @@ func (p *prog) smartVoting(c *contract) *opSpec {
 				}
 				h := &voteHint{vote: byte(rapid.IntRange(0, 2).Draw(p.t, "ovVote")), salt: []byte{byte(a.Idx), 7, 7}}
 				args, cls := p.mangle([][]byte{voteHash(h.vote, h.salt)}, "ovProofArgs")
-				pay := p.payAmount("ovProofPay", a, minPay, minPay, minPay, minPay, minPay, new(big.Int).Add(minPay, sim.Dna(1)), new(big.Int).Sub(minPay, big.NewInt(1)))
+				pay := p.payNeeded("ovProofPay", a, minPay, minPay, minPay, minPay, minPay, minPay, new(big.Int).Add(minPay, sim.Dna(1)), new(big.Int).Sub(minPay, big.NewInt(1)))
 				if pay != nil && pay.Sign() < 0 {
 					pay = big.NewInt(0)
 				}
@@ -822,7 +869,7 @@ func (p *prog) smartRefundableLock(c *contract) *opSpec {
 		}
 		if p.chance("rolDeposit", depositOdds) {
 			a := p.anySender("rolDepositor")
-			pay := p.payAmount("rolDepositPay", a, minDeposit, new(big.Int).Add(minDeposit, sim.Dna(10)), new(big.Int).Mul(minDeposit, big.NewInt(3)), new(big.Int).Sub(minDeposit, big.NewInt(1)))
+			pay := p.payNeeded("rolDepositPay", a, minDeposit, new(big.Int).Add(minDeposit, sim.Dna(10)), new(big.Int).Mul(minDeposit, big.NewInt(3)), minDeposit, new(big.Int).Sub(minDeposit, big.NewInt(1)))
 			args, cls := p.mangle(nil, "rolDepositArgs")
 			op := p.mkCall(c, a, "deposit", pay, args, cls, true)
 			if pay != nil {
@@ -962,6 +1009,20 @@ func (p *prog) next() *opSpec {
 		deployOdds = 30
 	case 2:
 		deployOdds = 12
+	}
+	if p.focus == "voting" || p.focus == "mix" {
+		for _, ov := range alive {
+			if ov.kind != "OracleVoting" || !p.votingFinished(ov) {
+				continue
+			}
+			watched := false
+			for _, c := range p.contracts {
+				watched = watched || c.ov == ov
+			}
+			if !watched {
+				deployOdds = 60 // a finished voting nobody watches yet: time for a lock
+			}
+		}
 	}
 	if len(p.contracts) == 0 || p.chance("deployStep", deployOdds) {
 		return p.deploy()
